@@ -71,13 +71,17 @@ func run(c *lib.Ctx) error {
 		{name: fmt.Sprintf("MCActivation liveness NS=%d ND=%d K=2 crash<=%d", live.ns, live.nd, live.crash), run: lib.TLCRun{Dir: dir, Module: "MCActivation", Workers: 2, HeapGB: 4, Timeout: 13 * time.Minute,
 			Files: map[string][]byte{"MCActivation.cfg": mcCfg(live.ns, live.nd, 2, live.crash, false, "SpecLive", "PROPERTY Termination")}}},
 	}
+	nsess := c.Pick(3, 4)
+	sessJob := &tlcJob{name: fmt.Sprintf("MCActivation G client sessions of one daemon, %d clients", nsess), run: lib.TLCRun{Dir: dir, Module: "MCActivation", Workers: 2, HeapGB: 4, Timeout: 13 * time.Minute,
+		Files: map[string][]byte{"MCActivation.cfg": []byte(fmt.Sprintf("CONSTANTS NS = %d ND = 1 K = 1 MaxCrash = 0 Record = TRUE InitKinds = {\"live\"}\nSPECIFICATION SpecG\nCONSTRAINT SessionOK\nINVARIANT TypeOK DaemonExitsOnlyWhenNoClient ServeWhileClients EmitSess\n", nsess))}}}
+	jobs = append(jobs, sessJob)
 	for i, m := range safety {
 		w := 2
 		if i == 0 && c.Thorough() {
 			w = 4
 		}
 		jobs = append(jobs, &tlcJob{name: fmt.Sprintf("MCActivation safety NS=%d ND=%d K=2 crash<=%d", m.ns, m.nd, m.crash), run: lib.TLCRun{Dir: dir, Module: "MCActivation", Workers: w, HeapGB: c.Pick(4, 12), Timeout: 13 * time.Minute,
-			Files: map[string][]byte{"MCActivation.cfg": mcCfg(m.ns, m.nd, 2, m.crash, false, "Spec", "INVARIANT TypeOK EmitM")}}})
+			Files: map[string][]byte{"MCActivation.cfg": mcCfg(m.ns, m.nd, 2, m.crash, false, "Spec", "INVARIANT TypeOK DaemonExitsOnlyWhenNoClient EmitM")}}})
 	}
 	var wg sync.WaitGroup
 	slots := make(chan struct{}, 3) // at most 3 model-checking JVMs at a time (+ the trace validation of V)
@@ -137,7 +141,7 @@ func run(c *lib.Ctx) error {
 
 	// ---- G
 	var behs []*behaviour
-	for _, j := range jobs[0:2] {
+	for _, j := range []*tlcJob{jobs[0], jobs[1], sessJob} {
 		seen := map[string]bool{}
 		for _, l := range j.res.PrintedStrings() {
 			if seen[l] {
@@ -193,7 +197,7 @@ func replayAll(c *lib.Ctx, behs []*behaviour) error {
 		cls string
 		bad int
 	}
-	var ordinary, viol []item
+	var ordinary, viol, sessions []item
 	for _, b := range behs {
 		skip := false
 		for _, s := range b.Steps {
@@ -202,6 +206,10 @@ func replayAll(c *lib.Ctx, behs []*behaviour) error {
 			}
 		}
 		if skip {
+			continue
+		}
+		if b.Kind == "sess" {
+			sessions = append(sessions, item{b: b, bad: -1})
 			continue
 		}
 		if b.Kind == "term" {
@@ -266,7 +274,20 @@ func replayAll(c *lib.Ctx, behs []*behaviour) error {
 	c.Set("g_ordinary_behaviours_available", len(ordinary))
 	c.Set("g_exhaustive_over_terminal_behaviours", nOrd == len(ordinary))
 	chosen = append(chosen, ordinary[:nOrd]...)
-	c.Logf("G: %d behaviours emitted (%d counterexamples in %d signatures, %d ordinary); replaying %d", len(behs), len(viol), len(sigs), len(ordinary), len(chosen))
+	// client sessions of one daemon: every order of connects and disconnects (3 clients: all of them in
+	// every run; 4 clients: a seeded sample on top of nothing less than 400)
+	sort.SliceStable(sessions, func(i, j int) bool {
+		return strings.Join(labels(sessions[i].b), " ") < strings.Join(labels(sessions[j].b), " ")
+	})
+	nSess := len(sessions)
+	if nSess > 600 {
+		rng.Shuffle(len(sessions), func(i, j int) { sessions[i], sessions[j] = sessions[j], sessions[i] })
+		nSess = 600
+	}
+	c.Set("g_session_behaviours_available", len(sessions))
+	c.Set("g_session_behaviours_replayed", nSess)
+	chosen = append(chosen, sessions[:nSess]...)
+	c.Logf("G: %d behaviours emitted (%d counterexamples in %d signatures, %d terminal, %d client sessions); replaying %d", len(behs), len(viol), len(sigs), len(ordinary), len(sessions), len(chosen))
 
 	var par, seq []item
 	for _, it := range chosen {
